@@ -7,7 +7,11 @@
         list(T.columns.values), T.columns -> frame_columns      len(T) -> frame_len
         T[a]                              -> frame_col           pd.isnull(S) -> series_isnull
    New here:
-        len(S.unique())                       -> series_nunique
+        len(S.dropna().unique())              -> series_nunique_present  (distinct NON-missing cells; the
+                                                 source adds 1 itself when a cell is missing)
+        len(S.unique())                       -> series_nunique  (no longer used by the source: it counts
+                                                 None and NaN as two values; kept as the reference for the
+                                                 old count, Proofs/ProfilerRefineModel.v ex_mixed_old_count)
         sum(mask)                             -> py_sum            (the builtin, on any list)
         pd.DataFrame(records, columns=header) -> frame_of_records  (records: a list of TUPLES)
         F.set_index(label)                    -> frame_set_index
@@ -22,6 +26,8 @@
      equal only to None, NaN only to NaN: a column that holds None AND NaN has TWO missing "values"),
      for float64 columns the float hashtable (all NaN equal, 0.0 == -0.0), for int64 / bool / str
      columns plain equality.  Only the NUMBER of classes is used.
+   * Series.dropna() removes exactly the cells with pd.isnull (cell_missing: None and float NaN) and keeps
+     the others in order, so len(S.dropna().unique()) is the number of classes among the present cells.
    * str(float) is not modelled: shortest round-trip repr.  The generated functions take
      str_float : f64 -> string; the harness passes the observed strings, the theorems hold for every
      str_float.                                                                                   *)
@@ -113,6 +119,17 @@ Definition series_nunique (s : pyval) : pyval :=
   match s with
   | PExc _ => s
   | PList cells => PInt (Z.of_nat (nunique cells))
+  | _ => OutsideFrameModel
+  end.
+
+(* len(S.dropna().unique()): the number of classes among the cells that are not missing *)
+Definition nunique_present (cells : list pyval) : nat :=
+  nunique (filter (fun c => negb (cell_missing c)) cells).
+
+Definition series_nunique_present (s : pyval) : pyval :=
+  match s with
+  | PExc _ => s
+  | PList cells => PInt (Z.of_nat (nunique_present cells))
   | _ => OutsideFrameModel
   end.
 
